@@ -795,19 +795,27 @@ func assign(n *node) {
 	// then evaluate assign left hand side and copy temporary into it
 	n.exec = func(f *frame) bltn {
 		t := make([]reflect.Value, len(svalue))
+		k := make([]reflect.Value, len(svalue))
 		for i, s := range svalue {
 			if n.child[i].ident == "_" {
 				continue
 			}
 			t[i] = reflect.New(types[i]).Elem()
 			t[i].Set(s(f))
+			if j := ivalue[i]; j != nil {
+				// The operands of index expressions on the left are evaluated
+				// in the first phase too: "k, m[k] = ..." indexes with the old k.
+				key := j(f)
+				k[i] = reflect.New(key.Type()).Elem()
+				k[i].Set(key)
+			}
 		}
 		for i, d := range dvalue {
 			if n.child[i].ident == "_" {
 				continue
 			}
-			if j := ivalue[i]; j != nil {
-				d(f).SetMapIndex(j(f), t[i]) // Assign a map entry
+			if ivalue[i] != nil {
+				d(f).SetMapIndex(k[i], t[i]) // Assign a map entry
 			} else {
 				d(f).Set(t[i]) // Assign a var or array/slice entry
 			}
@@ -2764,6 +2772,7 @@ func doCompositeBinStruct(n *node, hasType bool) {
 
 	frameIndex := n.findex
 	l := n.level
+	assigned := n.anc != nil && n.anc.kind == assignStmt && n.anc.action == aAssign
 
 	n.exec = func(f *frame) bltn {
 		s := reflect.New(typ).Elem()
@@ -2774,6 +2783,9 @@ func doCompositeBinStruct(n *node, hasType bool) {
 		switch {
 		case d.Kind() == reflect.Ptr:
 			d.Set(s.Addr())
+		case assigned && d.CanSet() && d.Type() == typ:
+			// An assignment to an existing variable keeps the identity of the variable.
+			d.Set(s)
 		default:
 			getFrame(f, l).data[frameIndex] = s
 		}
@@ -2834,6 +2846,7 @@ func doComposite(n *node, hasType bool, keyed bool) {
 	frameIndex := n.findex
 	l := n.level
 	rt := typ.TypeOf()
+	assigned := n.anc != nil && n.anc.kind == assignStmt && n.anc.action == aAssign
 
 	n.exec = func(f *frame) bltn {
 		a := reflect.New(rt).Elem()
@@ -2849,6 +2862,10 @@ func doComposite(n *node, hasType bool, keyed bool) {
 				d.Set(reflect.ValueOf(valueInterface{n, a}))
 				break
 			}
+			d.Set(a)
+		case assigned && d.CanSet() && d.Type() == rt:
+			// An assignment to an existing variable keeps the identity of the
+			// variable: a pointer taken to it earlier sees the new value.
 			d.Set(a)
 		default:
 			getFrame(f, l).data[frameIndex] = a
